@@ -70,6 +70,8 @@ EncContainer(ms, h) ==
              ELSE {e \in SeqToSet(st.reg) : e[1] # "default"} \cup {<<"default", st.dflt>>}
   IN [pfx |-> {e \in raw : e[1] # "default"},
       dflt |-> IF \E e \in raw : e[1] = "default" THEN (CHOOSE e \in raw : e[1] = "default")[2] ELSE NONE,
+      \* the order of the keys of the block (a reader registers them in this order)
+      pfxseq |-> SelectSeq(st.reg, LAMBDA e : e[1] # "default"),
       recs |-> [i \in 1..Len(c.recs) |-> EncRec(c.recs[i])]]
 EncAJ(ms, h) ==
   [top |-> EncContainer(ms, h),
@@ -171,4 +173,99 @@ ReadAJ(aj) ==
                      LET sc == AJScope(aj.bundles[i].con) IN
                      [id |-> JNameUri(aj.bundles[i].id, sc, top),
                       recs |-> ReadAJCon(aj.bundles[i].con, sc, top)]]]
+(***************************************************************************)
+(* The PROV-JSON READER of the library (decode_json_document /             *)
+(* decode_json_container / decode_json_representation), transcribed: what   *)
+(* it does is a sequence of public calls on a fresh document - register     *)
+(* the prefixes in the order of the block, set the default namespace,       *)
+(* create each record with new_record from names given as STRINGS and       *)
+(* values decoded from their JSON form, create each bundle attached to the  *)
+(* document, fill it, and add it under its identifier resolved in the       *)
+(* bundle's scope - so it is expressed with the operators of the model      *)
+(* itself (ApplyF).  DecJ(aj) = [st: model state holding the document read  *)
+(* under the handle "~r" (bundles "~r+<i>"), exc].                          *)
+(* Used for: the model-level round trip JsonRoundTrip (MC_Ser) and the      *)
+(* conformance clause M_JsonBack (the document the real reader returned,    *)
+(* namespaces included, is the one this transcription produces).            *)
+(***************************************************************************)
+RECURSIVE RunX(_, _, _)
+RunX(ms, acts, i) ==
+  IF i > Len(acts) THEN [st |-> ms, exc |-> "none"]
+  ELSE LET r == ApplyF(ms, acts[i]) IN
+       IF r.exc # "none" THEN [st |-> r.st, exc |-> r.exc] ELSE RunX(r.st, acts, i + 1)
+
+RName(n) == IF n.p = "" THEN NameBare(n.l) ELSE NamePL(n.p, n.l)
+(* the namespace a 'prefix:local' datatype string resolves to in container h (valid_qualified_name) *)
+RStr(n) == IF n.p = "" THEN StrBare(n.l) ELSE StrPL(n.p, n.l)
+(* decode_json_representation, as an input value of new_record *)
+DecVal(ms, h, v) ==
+  CASE v.j = "str"    -> [t |-> "str", v |-> v.v]
+    [] v.j = "isostr" -> [t |-> "isostr", v |-> v.v]
+    [] v.j = "bool"   -> [t |-> "bool", v |-> v.v]
+    [] v.j = "lang"   -> [t |-> "lang", v |-> v.v, lang |-> v.lang]
+    [] v.j = "typed"  ->
+         LET dq == ResolveStrF(ms.mgr, MgrOf(ms, h), RStr(v.tp))
+             du == IF dq.ok THEN Uri(dq) ELSE NONE
+         IN IF du = <<"xsd#", "anyURI">> THEN [t |-> "uri", u |-> v.lex.u]
+            ELSE IF du = <<"prov#", "QUALIFIED_NAME">>
+                 THEN \* resolved here; a name that does not resolve is None and new_record skips the pair
+                      (IF ResolveStrF(ms.mgr, MgrOf(ms, h), RStr([p |-> v.lex.p, l |-> v.lex.l])).ok
+                       THEN [t |-> "name", n |-> RName([p |-> v.lex.p, l |-> v.lex.l])] ELSE [t |-> "skip"])
+            ELSE IF du = <<"xsd#", "int">> THEN [t |-> "nlit", T |-> "int", v |-> v.lex.v]
+            ELSE IF du = <<"xsd#", "double">> THEN [t |-> "nlit", T |-> "double", v |-> v.lex.v]
+            ELSE IF du = <<"xsd#", "dateTime">> THEN [t |-> "nlit", T |-> "dateTime", v |-> v.lex.v]
+            ELSE IF ~dq.ok THEN [t |-> "str", v |-> v.lex.v]          \* Literal(value, None): a plain string
+            ELSE [t |-> "lit", v |-> v.lex.v, dt |-> dq]
+DecRecAct(ms, h, r) ==
+  LET body   == SetToSeq(r.body)
+      isF(e) == e.key.p = "prov" /\ Len(e.key.l) = 1 /\ e.key.l[1] \in JRefAttrs \cup JTimeAttrs
+      one(e) == CHOOSE w \in e.vals : TRUE
+      fval(e) == IF e.key.l[1] \in JTimeAttrs THEN [t |-> "dt", v |-> one(e).v]
+                 ELSE [t |-> "name", n |-> RName([p |-> one(e).p, l |-> one(e).l])]
+      \* a formal reference that does not resolve is None: the argument is simply absent
+      fok(e) == e.key.l[1] \in JTimeAttrs \/ ResolveStrF(ms.mgr, MgrOf(ms, h), RStr([p |-> one(e).p, l |-> one(e).l])).ok
+      fidx   == SelectSeq([i \in 1..Len(body) |-> i], LAMBDA i : isF(body[i]) /\ fok(body[i]))
+      oidx   == SelectSeq([i \in 1..Len(body) |-> i], LAMBDA i : ~isF(body[i]))
+      extrasOf(e) == LET vs == SetToSeq(e.vals)
+                         ds == [k \in 1..Len(vs) |-> <<RName(e.key), DecVal(ms, h, vs[k])>>]
+                     IN SelectSeq(ds, LAMBDA d : d[2].t # "skip")
+  IN [op |-> "NewRec", h |-> h, k |-> JKind[r.kind], via |-> "new_record",
+      id |-> IF r.id.blank THEN <<>> ELSE <<RName([p |-> r.id.p, l |-> r.id.l])>>,
+      formals |-> [i \in 1..Len(fidx) |-> <<body[fidx[i]].key.l[1], fval(body[fidx[i]])>>],
+      extras |-> FlattenSeq([i \in 1..Len(oidx) |-> extrasOf(body[oidx[i]])])]
+DecCon(ms, h, c) ==
+  LET nsActs == [i \in 1..Len(c.pfxseq) |-> [op |-> "AddNs", h |-> h, p |-> c.pfxseq[i][1], u |-> c.pfxseq[i][2]]]
+                \o (IF c.dflt # NONE THEN <<[op |-> "SetDefault", h |-> h, u |-> c.dflt]>> ELSE <<>>)
+      r1 == RunX(ms, nsActs, 1)
+  IN IF r1.exc # "none" THEN r1
+     ELSE RunX(r1.st, [i \in 1..Len(c.recs) |-> DecRecAct(r1.st, h, c.recs[i])], 1)
+RH == "~r"
+RBun(i) == RH \o "+" \o ToString(i)
+RECURSIVE DecBundles(_, _, _)
+DecBundles(ms, bs, i) ==
+  IF i > Len(bs) THEN [st |-> ms, exc |-> "none"]
+  ELSE LET b  == RBun(i)
+           \* ProvBundle(document=document): linked to the document's manager, not yet listed in it
+           s0 == [ms EXCEPT !.mgr = (b :> MgrInit(ms.con[RH].mgr)) @@ @,
+                            !.con = (b :> ConInit("bun", b, NoQN, RH)) @@ @]
+           r1 == DecCon(s0, b, bs[i].con)
+       IN IF r1.exc # "none" THEN r1
+          ELSE \* the key is resolved (as a string) in the bundle's scope, and the QualifiedName obtained
+               \* is what add_bundle validates - which registers its namespace in the bundle
+               LET q  == ResolveStrF(r1.st.mgr, MgrOf(r1.st, b), RStr(bs[i].id))
+                   r2 == IF q.ok THEN AddBundleF(r1.st, RH, b, <<NameQN(q.p, q.ns, q.l)>>, "~unused")
+                         ELSE Raise(r1.st, "ProvException")         \* add_bundle(bundle, None)
+               IN IF r2.exc # "none" THEN [st |-> r2.st, exc |-> r2.exc] ELSE DecBundles(r2.st, bs, i + 1)
+DecJ(aj) ==
+  LET s0 == DoNewDoc(InitEmpty, [out |-> RH]).st
+      r1 == DecCon(s0, RH, aj.top)
+  IN IF r1.exc # "none" THEN r1 ELSE DecBundles(r1.st, aj.bundles, 1)
+
+(* a document of a model state in the shape a reader returns (records with attribute SETS, bundles by id) *)
+RdOf(st, h) ==
+  LET recsOf(c) == [i \in 1..Len(c.recs) |-> ProjRec(c.recs[i])] IN
+  [recs |-> recsOf(st.con[h]), ns |-> ProjNs(st.mgr[st.con[h].mgr]),
+   bundles |-> [i \in 1..Len(st.con[h].bundles) |->
+                  LET b == st.con[st.con[h].bundles[i]] IN
+                  [id |-> IF b.id.ok THEN Uri(b.id) ELSE NONE, recs |-> recsOf(b), ns |-> ProjNs(st.mgr[b.mgr])]]]
 =============================================================================
